@@ -45,12 +45,14 @@ KRulesOf(s2) == FlattenSeq([i \in DOMAIN s2 |-> IF ~s2[i].live THEN <<>> ELSE
                    <<[kind |-> "far", seid |-> SeidStr(i), id |-> 1], [kind |-> "qer", seid |-> SeidStr(i), id |-> 1]>>
                    \o [k \in 1..Cardinality(s2[i].urrs) |-> [kind |-> "urr", seid |-> SeidStr(i), id |-> SetToSeq({u.id : u \in s2[i].urrs})[k]]]
                    \o [k \in 1..Cardinality(s2[i].pdrs) |-> [kind |-> "pdr", seid |-> SeidStr(i), id |-> SetToSeq(s2[i].pdrs)[k]]]])
-Commit(e, out, gpdu, mq, pkts, s2) ==
-  LET Lx == [tr |-> "mc", i |-> turns + 1, e |-> e, calls |-> <<>>, gets |-> 0, mq |-> mq, out |-> out, gpdu |-> gpdu, krules |-> KRulesOf(s2),
+CommitT(e, out, gpdu, mq, mqr, pkts, s2) ==
+  LET Lx == [tr |-> "mc", i |-> turns + 1, e |-> e, calls |-> <<>>, gets |-> 0, mq |-> mq, mqr |-> mqr, out |-> out, gpdu |-> gpdu, krules |-> KRulesOf(s2),
              snap |-> [rx |-> <<>>, tx |-> <<>>, txseq |-> "", free |-> <<>>, live |-> <<>>, nodes |-> <<>>],
              queues |-> QueuesOf(s2), tickers |-> TickersOf(s2), pkts |-> pkts, fatal |-> ""]
       r == StepL2(h, Lx)
   IN /\ L' = Lx /\ bad' = r.v /\ h' = r.h /\ hist' = Append(hist, [e EXCEPT !.exp = <<ProjL2(Lx)>>]) /\ turns' = turns + 1
+
+Commit(e, out, gpdu, mq, pkts, s2) == CommitT(e, out, gpdu, mq, <<>>, pkts, s2)
 
 \* ------------------------------------------------------------------ sessions
 Assoc(n) ==
@@ -132,14 +134,18 @@ Tick(P) ==
   LET e == [Ev("tick") EXCEPT !.period = P]
       reg(i) == {u \in ss[i].urrs : u.perio /\ u.period = P}
       sess == SetToSeq({i \in Live : reg(i) # {}})
-      oids == FlattenSeq([k \in DOMAIN sess |-> [j \in 1..Cardinality(reg(sess[k])) |->
-                 OidStr(SeidStr(sess[k]), SetToSeq({u.id : u \in reg(sess[k])})[j])]])
+      \* every registered (session, URR) pair once; the kernel's measurement for the i-th pair carries token tok + i
+      ent == FlattenSeq([k \in DOMAIN sess |-> [j \in 1..Cardinality(reg(sess[k])) |->
+                 [sd |-> sess[k], u |-> SetToSeq({u.id : u \in reg(sess[k])})[j]]]])
+      oids == [i \in DOMAIN ent |-> OidStr(SeidStr(ent[i].sd), ent[i].u)]
+      mqr == [i \in DOMAIN ent |-> [seid |-> SeidStr(ent[i].sd), urr |-> ent[i].u, tv |-> ValsOfTok(tok + i).tv]]
+      mine(k) == SelectSeq([i \in DOMAIN ent |-> i], LAMBDA i : ent[i].sd = sess[k])
       out == [k \in DOMAIN sess |->
                 [Dgram(NodePeer(ss[sess[k]].node), MT_SRREQ, txseq + k - 1, ss[sess[k]].cp) EXCEPT
-                   !.rtype = 2, !.rpts = [j \in 1..Cardinality(reg(sess[k])) |-> Rep(SetToSeq({u.id : u \in reg(sess[k])})[j], TRIG_PERIO, tok + j)]]]
+                   !.rtype = 2, !.rpts = [j \in DOMAIN mine(k) |-> Rep(ent[mine(k)[j]].u, TRIG_PERIO, tok + mine(k)[j])]]]
   IN /\ "tick" \in Kinds
      /\ txseq' = txseq + Len(out) /\ tok' = tok + Len(oids)
-     /\ Commit(e, out, <<>>, IF oids = <<>> THEN <<>> ELSE <<oids>>, <<>>, ss)
+     /\ CommitT(e, out, <<>>, IF oids = <<>> THEN <<>> ELSE <<oids>>, mqr, <<>>, ss)
      /\ UNCHANGED <<ss, free, assoc, base>>
 
 RemoveUrr(i, u) ==
@@ -175,7 +181,7 @@ KernelReport(sd, u, c) ==
 
 Init ==
   /\ ss = <<>> /\ free = <<>> /\ assoc = {} /\ txseq = 0 /\ tok = 0 /\ base = 0
-  /\ L = [tr |-> "mc", i |-> 0, e |-> Ev("init"), calls |-> <<>>, gets |-> 0, mq |-> <<>>, out |-> <<>>, gpdu |-> <<>>, krules |-> <<>>,
+  /\ L = [tr |-> "mc", i |-> 0, e |-> Ev("init"), calls |-> <<>>, gets |-> 0, mq |-> <<>>, mqr |-> <<>>, out |-> <<>>, gpdu |-> <<>>, krules |-> <<>>,
           snap |-> [rx |-> <<>>, tx |-> <<>>, txseq |-> "", free |-> <<>>, live |-> <<>>, nodes |-> <<>>], queues |-> <<>>, tickers |-> 0,
           pkts |-> <<>>, fatal |-> ""]
   /\ h = H0 /\ bad = {} /\ hist = <<>> /\ turns = 0
